@@ -18,7 +18,7 @@ pub fn spawn_watchdog(prop: &'static str, tier: run::Tier, seed: u64, verif_dir:
         let verdict = if crashed != 0 {
             let w1 = (crashed & 0xFFFF_FFFF) as usize;
             let (sid, idx) = if w1 >= 1 && w1 <= guard::MAX_WORKERS { guard::crumb_of(w1 - 1) } else { (0, 0) };
-            Some((sid, idx, "process-abort", format!("the process was aborted (signal {}) while this case ran: stack overflow from unbounded recursion, failed allocation or a panic inside a panic", crashed >> 32)))
+            Some((sid, idx, "process-abort", format!("fatal signal {} while this case ran ({})", crashed >> 32, if crashed >> 32 == 6 { "abort: failed allocation or a panic inside a panic" } else { "fault on a guard page: the stack overflowed, recursion depth grows with the input" })))
         } else if blown != 0 {
             let (sid, idx) = guard::crumb_of(blown - 1);
             Some((sid, idx, "runaway-allocation", format!("live heap exceeded the cap ({} bytes live)", guard::live_alloc())))
